@@ -1,4 +1,676 @@
 import Reduino.Lang.Layout
 /- helper lemmas for Props/C07.lean (individual Mathlib modules may be imported here) -/
 namespace Reduino.Lemmas.C07
+open Reduino.Lang.Layout
+
+theorem stripGo_no_hash (st : Scan) (acc s : List Char) (h : '#' ∉ s) : stripGo st acc s = none := by
+  induction s generalizing st acc with
+  | nil => rfl
+  | cons c rest ih =>
+    have hc : c ≠ '#' := fun e => h (by simp [e])
+    have hr : '#' ∉ rest := fun e => h (by simp [e])
+    simp only [stripGo, hc, false_and, if_false, ih _ _ hr, ite_self]
+
+theorem stripGo_cut (st : Scan) (acc s r : List Char) (h : stripGo st acc s = some r) :
+    ∃ pre post, s = pre ++ '#' :: post ∧ r = rstrip (acc.reverse ++ pre) := by
+  induction s generalizing st acc with
+  | nil => simp [stripGo] at h
+  | cons c rest ih =>
+    have step : ∀ st', stripGo st' (c :: acc) rest = some r →
+        ∃ pre post, c :: rest = pre ++ '#' :: post ∧ r = rstrip (acc.reverse ++ pre) := by
+      intro st' h'
+      obtain ⟨pre, post, h1, h2⟩ := ih _ _ h'
+      exact ⟨c :: pre, post, by simp [h1], by simpa using h2⟩
+    simp only [stripGo] at h
+    split at h
+    · exact step _ h
+    · split at h
+      · exact step _ h
+      · split at h
+        · exact step _ h
+        · split at h
+          · exact step _ h
+          · split at h
+            · rename_i hh
+              refine ⟨[], rest, by simp [hh.1], ?_⟩
+              simpa using (Option.some.inj h).symm
+            · exact step _ h
+
+def plain (c : Char) : Prop := c ≠ '#' ∧ c ≠ '\'' ∧ c ≠ '"' ∧ c ≠ '\\'
+
+theorem stripGo_plain (acc a rest : List Char) (ha : ∀ x ∈ a, plain x) :
+    stripGo ⟨false, false, false⟩ acc (a ++ rest) = stripGo ⟨false, false, false⟩ (a.reverse ++ acc) rest := by
+  induction a generalizing acc with
+  | nil => rfl
+  | cons x a ih =>
+    obtain ⟨h1, h2, h3, h4⟩ := ha x (by simp)
+    have := ih (x :: acc) (fun y hy => ha y (by simp [hy]))
+    simp [stripGo, h1, h2, h3, h4, this]
+
+theorem stripGo_inDouble (acc b rest : List Char) (hb : ∀ x ∈ b, x ≠ '"' ∧ x ≠ '\\') :
+    stripGo ⟨false, true, false⟩ acc (b ++ '"' :: rest) = stripGo ⟨false, false, false⟩ ('"' :: (b.reverse ++ acc)) rest := by
+  induction b generalizing acc with
+  | nil => simp [stripGo]
+  | cons x b ih =>
+    obtain ⟨h1, h2⟩ := hb x (by simp)
+    have := ih (x :: acc) (fun y hy => hb y (by simp [hy]))
+    simp [stripGo, h1, h2, this]
+
+theorem stripGo_hash (acc post : List Char) :
+    stripGo ⟨false, false, false⟩ acc ('#' :: post) = some (rstrip acc.reverse) := by
+  simp [stripGo]
+
+theorem indentOf_other (rest : List Char) (h : rest.head? ≠ some ' ' ∧ rest.head? ≠ some '\t') : indentOf rest = 0 := by
+  unfold indentOf
+  split
+  · simp at h
+  · simp at h
+  · rfl
+
+/-! ### line level -/
+
+theorem collectBlock_append (base : Nat) (ls : List Line) :
+    (collectBlock base ls).1 ++ (collectBlock base ls).2 = ls := by
+  induction ls with
+  | nil => simp [collectBlock]
+  | cons l rest ih =>
+    simp only [collectBlock]
+    split
+    · simpa using ih
+    · split
+      · simp
+      · simpa using ih
+
+theorem collectBlock_len1 (base : Nat) (ls : List Line) : (collectBlock base ls).1.length ≤ ls.length := by
+  have := collectBlock_length base ls; omega
+
+theorem collectBlock_len2 (base : Nat) (ls : List Line) : (collectBlock base ls).2.length ≤ ls.length := by
+  have := collectBlock_length base ls; omega
+
+theorem chain_length (fuel base : Nat) (isIf : Bool) (ls : List Line) :
+    (nested.chain fuel base isIf ls).2.length ≤ ls.length := by
+  induction fuel generalizing ls with
+  | zero => simp [nested.chain]
+  | succ fuel ih =>
+    cases ls with
+    | nil => simp [nested.chain]
+    | cons l rest =>
+      simp only [nested.chain]
+      split
+      · have := ih rest; simp; omega
+      · split
+        · simp
+        · split
+          · split
+            · have := ih (collectBlock l.indent rest).2
+              have := collectBlock_len2 l.indent rest
+              simp; omega
+            · simp
+          · split
+            · have := collectBlock_len2 l.indent rest
+              simp; omega
+            · simp
+          · split
+            · have := ih (collectBlock l.indent rest).2
+              have := collectBlock_len2 l.indent rest
+              simp; omega
+            · simp
+          · simp
+
+theorem fuel_indep (fuel : Nat) : ∀ (fuel' : Nat) (ls : List Line), ls.length < fuel → ls.length < fuel' →
+    nested fuel ls = nested fuel' ls ∧
+    ∀ base isIf, nested.chain fuel base isIf ls = nested.chain fuel' base isIf ls := by
+  induction fuel with
+  | zero => intro _ _ h; omega
+  | succ fuel ih =>
+    intro fuel' ls h1 h2
+    cases fuel' with
+    | zero => omega
+    | succ fuel' =>
+    cases ls with
+    | nil => simp [nested, nested.chain]
+    | cons l rest =>
+      simp only [List.length_cons] at h1 h2
+      have N : ∀ xs : List Line, xs.length ≤ rest.length → nested fuel xs = nested fuel' xs :=
+        fun xs hx => (ih fuel' xs (by omega) (by omega)).1
+      have C : ∀ (xs : List Line) base isIf, xs.length ≤ rest.length →
+          nested.chain fuel base isIf xs = nested.chain fuel' base isIf xs :=
+        fun xs base isIf hx => (ih fuel' xs (by omega) (by omega)).2 base isIf
+      have hb := collectBlock_len1 l.indent rest
+      have hr := collectBlock_len2 l.indent rest
+      have e1 := N _ (Nat.le_refl rest.length)
+      have e2 := N _ hb
+      have e3 := N _ hr
+      have e4 := fun base isIf => C _ base isIf hr
+      have e5 := fun base isIf => N _ (Nat.le_trans (chain_length fuel' base isIf _) hr)
+      have e6 := fun base isIf => C _ base isIf (Nat.le_refl rest.length)
+      constructor
+      · simp only [nested, e1, e2, e3, e4, e5]
+      · intro base isIf
+        simp only [nested.chain, e2, e4, e6]
+
+/-! ### indentation scaling -/
+def scale (k : Nat) (l : Line) : Line := { l with indent := k * l.indent }
+
+@[simp] theorem scale_kind (k l) : (scale k l).kind = l.kind := rfl
+@[simp] theorem scale_tag (k l) : (scale k l).tag = l.tag := rfl
+@[simp] theorem scale_trailing (k l) : (scale k l).trailing = l.trailing := rfl
+@[simp] theorem scale_indent (k l) : (scale k l).indent = k * l.indent := rfl
+
+theorem mul_le_iff (k : Nat) (hk : 1 ≤ k) (a b : Nat) : (k * a ≤ k * b) = (a ≤ b) :=
+  propext (Nat.mul_le_mul_left_iff (by omega))
+
+theorem mul_eq_iff (k : Nat) (hk : 1 ≤ k) (a b : Nat) : (k * a = k * b) = (a = b) :=
+  propext (Nat.mul_left_cancel_iff (by omega))
+
+theorem collectBlock_scale (k : Nat) (hk : 1 ≤ k) (base : Nat) (ls : List Line) :
+    collectBlock (k * base) (ls.map (scale k)) =
+      ((collectBlock base ls).1.map (scale k), (collectBlock base ls).2.map (scale k)) := by
+  induction ls with
+  | nil => simp [collectBlock]
+  | cons l rest ih =>
+    simp only [List.map_cons, collectBlock, scale_kind, scale_indent, mul_le_iff k hk, ih]
+    split
+    · rfl
+    · split <;> rfl
+
+theorem nested_scale (k : Nat) (hk : 1 ≤ k) (fuel : Nat) : ∀ ls : List Line,
+    nested fuel (ls.map (scale k)) = nested fuel ls ∧
+    ∀ base isIf, nested.chain fuel (k * base) isIf (ls.map (scale k)) =
+      ((nested.chain fuel base isIf ls).1, (nested.chain fuel base isIf ls).2.map (scale k)) := by
+  induction fuel with
+  | zero => intro ls; simp [nested, nested.chain]
+  | succ fuel ih =>
+    intro ls
+    cases ls with
+    | nil => simp [nested, nested.chain]
+    | cons l rest =>
+      have N := fun xs => (ih xs).1
+      have C := fun xs => (ih xs).2
+      constructor
+      · simp only [List.map_cons, nested, scale_kind, scale_indent, scale_tag, collectBlock_scale k hk, N, C]
+      · intro base isIf
+        simp only [List.map_cons, nested.chain, scale_kind, scale_indent, scale_tag, scale_trailing,
+          collectBlock_scale k hk, N, C, ne_eq, mul_eq_iff k hk]
+        split
+        · rfl
+        · split
+          · rfl
+          · split
+            · split <;> rfl
+            · split <;> rfl
+            · split <;> rfl
+            · rfl
+
+/-! ### trailing comments off continuation headers -/
+def isContL (l : Line) : Bool := l.kind = .header .elifH || l.kind = .header .elseH || l.kind = .header .exceptH
+
+def untrail (l : Line) : Line := if isContL l then l else { l with trailing := false }
+
+@[simp] theorem untrail_kind (l) : (untrail l).kind = l.kind := by unfold untrail; split <;> rfl
+@[simp] theorem untrail_tag (l) : (untrail l).tag = l.tag := by unfold untrail; split <;> rfl
+@[simp] theorem untrail_indent (l) : (untrail l).indent = l.indent := by unfold untrail; split <;> rfl
+theorem untrail_trailing (l) (h : isContL l = true) : (untrail l).trailing = l.trailing := by
+  unfold untrail; rw [if_pos h]
+
+theorem collectBlock_untrail (base : Nat) (ls : List Line) :
+    collectBlock base (ls.map untrail) =
+      ((collectBlock base ls).1.map untrail, (collectBlock base ls).2.map untrail) := by
+  induction ls with
+  | nil => simp [collectBlock]
+  | cons l rest ih =>
+    simp only [List.map_cons, collectBlock, untrail_kind, untrail_indent, ih]
+    split
+    · rfl
+    · split <;> rfl
+
+theorem nested_untrail (fuel : Nat) : ∀ ls : List Line,
+    nested fuel (ls.map untrail) = nested fuel ls ∧
+    ∀ base isIf, nested.chain fuel base isIf (ls.map untrail) =
+      ((nested.chain fuel base isIf ls).1, (nested.chain fuel base isIf ls).2.map untrail) := by
+  induction fuel with
+  | zero => intro ls; simp [nested, nested.chain]
+  | succ fuel ih =>
+    intro ls
+    cases ls with
+    | nil => simp [nested, nested.chain]
+    | cons l rest =>
+      have N := fun xs => (ih xs).1
+      have C := fun xs => (ih xs).2
+      constructor
+      · simp only [List.map_cons, nested, untrail_kind, untrail_indent, untrail_tag, collectBlock_untrail, N, C]
+      · intro base isIf
+        simp only [List.map_cons, nested.chain, untrail_kind, untrail_indent, untrail_tag,
+          collectBlock_untrail, N, C]
+        split
+        · rfl
+        · split
+          · rfl
+          · split
+            · rename_i heq
+              rw [untrail_trailing l (by simp [isContL, heq])]
+              split <;> rfl
+            · rename_i heq
+              rw [untrail_trailing l (by simp [isContL, heq])]
+              split <;> rfl
+            · rename_i heq
+              rw [untrail_trailing l (by simp [isContL, heq])]
+              split <;> rfl
+            · rfl
+
+/-! ### blank lines -/
+def noBlank (ls : List Line) : List Line := ls.filter (·.kind ≠ .blank)
+
+theorem noBlank_cons_blank {l : Line} (rest : List Line) (h : l.kind = .blank) :
+    noBlank (l :: rest) = noBlank rest := by simp [noBlank, h]
+
+theorem noBlank_cons_nonblank {l : Line} (rest : List Line) (h : l.kind ≠ .blank) :
+    noBlank (l :: rest) = l :: noBlank rest := by simp [noBlank, h]
+
+theorem noBlank_length (ls : List Line) : (noBlank ls).length ≤ ls.length := List.length_filter_le _ _
+
+theorem collectBlock_noBlank (base : Nat) (ls : List Line) :
+    collectBlock base (noBlank ls) = (noBlank (collectBlock base ls).1, noBlank (collectBlock base ls).2) := by
+  induction ls with
+  | nil => simp [collectBlock, noBlank]
+  | cons l rest ih =>
+    by_cases hk : l.kind = .blank
+    · simp only [noBlank_cons_blank _ hk, collectBlock, hk, if_true, ih]
+    · simp only [noBlank_cons_nonblank _ hk, collectBlock, hk, if_false, ih]
+      split
+      · simp only [noBlank_cons_nonblank _ hk]; rfl
+      · simp only [noBlank_cons_nonblank _ hk]
+
+theorem nested_noBlank (fuel : Nat) : ∀ ls : List Line, ls.length < fuel →
+    nested fuel (noBlank ls) = nested fuel ls ∧
+    ∀ base isIf, nested.chain fuel base isIf (noBlank ls) =
+      ((nested.chain fuel base isIf ls).1, noBlank (nested.chain fuel base isIf ls).2) := by
+  induction fuel with
+  | zero => intro ls h; omega
+  | succ fuel ih =>
+    intro ls hlen
+    cases ls with
+    | nil => simp [nested, nested.chain, noBlank]
+    | cons l rest =>
+      simp only [List.length_cons] at hlen
+      have N : ∀ xs : List Line, xs.length ≤ rest.length → nested fuel (noBlank xs) = nested fuel xs :=
+        fun xs hx => (ih xs (by omega)).1
+      have C : ∀ (xs : List Line) base isIf, xs.length ≤ rest.length → _ :=
+        fun xs base isIf hx => (ih xs (by omega)).2 base isIf
+      have hb := collectBlock_len1 l.indent rest
+      have hr := collectBlock_len2 l.indent rest
+      have e1 := N _ (Nat.le_refl rest.length)
+      have e2 := N _ hb
+      have e3 := N _ hr
+      have e4 := fun base isIf => C _ base isIf hr
+      have e5 := fun base isIf => N _ (Nat.le_trans (chain_length fuel base isIf _) hr)
+      have e6 := fun base isIf => C _ base isIf (Nat.le_refl rest.length)
+      have hnl := noBlank_length rest
+      by_cases hk : l.kind = .blank
+      · have f := fuel_indep (fuel + 1) fuel (noBlank rest) (by omega) (by omega)
+        constructor
+        · rw [noBlank_cons_blank _ hk, f.1, e1]
+          simp only [nested, hk]
+        · intro base isIf
+          rw [noBlank_cons_blank _ hk, f.2, e6]
+          simp only [nested.chain, hk, if_true]
+      · constructor
+        · simp only [noBlank_cons_nonblank _ hk, nested, collectBlock_noBlank, e1, e2, e3, e4, e5]
+        · intro base isIf
+          simp only [noBlank_cons_nonblank _ hk, nested.chain, collectBlock_noBlank, e2, e4, hk, if_false]
+          have hc := noBlank_cons_nonblank rest hk
+          split
+          · simp only [hc]
+          · split
+            · split
+              · rfl
+              · simp only [hc]
+            · split
+              · rfl
+              · simp only [hc]
+            · split
+              · rfl
+              · simp only [hc]
+            · simp only [hc]
+
+/-! ### agreement with Python's rule on clean code -/
+
+theorem mem_collectBlock1 {base : Nat} {ls : List Line} {x : Line} (h : x ∈ (collectBlock base ls).1) : x ∈ ls := by
+  rw [← collectBlock_append base ls]; exact List.mem_append_left _ h
+
+theorem mem_collectBlock2 {base : Nat} {ls : List Line} {x : Line} (h : x ∈ (collectBlock base ls).2) : x ∈ ls := by
+  rw [← collectBlock_append base ls]; exact List.mem_append_right _ h
+
+theorem collectBlock_eq_pyBlock (base : Nat) (ls : List Line) (h : ∀ l ∈ ls, l.kind ≠ .blank) :
+    collectBlock base ls = pyBlock base ls := by
+  induction ls with
+  | nil => rfl
+  | cons l rest ih =>
+    have h1 : l.kind ≠ .blank := h l (by simp)
+    have h2 := ih (fun x hx => h x (by simp [hx]))
+    simp only [collectBlock, pyBlock, h1, if_false, h2]
+
+theorem nested_eq_py (C : List Tree → Bool)
+    (hdrop : ∀ t ts, C (.dropped t :: ts) = false)
+    (hleaf : ∀ t ts, C (.leaf t :: ts) = true → C ts = true)
+    (hnode : ∀ t h cs ts, C (.node t h cs :: ts) = true → C cs = true ∧ C ts = true)
+    (fuel : Nat) : ∀ ls : List Line,
+    (∀ l ∈ ls, l.kind ≠ .blank ∧ l.kind ≠ .comment) →
+    (∀ l ∈ ls, isContL l = true → l.trailing = false) → ls.length < fuel →
+    (C (nested fuel ls) = true → nested fuel ls = pyParse fuel ls) ∧
+    (∀ base isIf, C ((nested.chain fuel base isIf ls).1 ++ nested fuel (nested.chain fuel base isIf ls).2) = true →
+      (nested.chain fuel base isIf ls).1 ++ nested fuel (nested.chain fuel base isIf ls).2 = pyParse fuel ls) := by
+  induction fuel with
+  | zero => intro ls _ _ h; omega
+  | succ fuel ih =>
+    intro ls hcode htr hlen
+    cases ls with
+    | nil => simp [nested, nested.chain, pyParse]
+    | cons l rest =>
+      simp only [List.length_cons] at hlen
+      have hl := hcode l (by simp)
+      have hcode' : ∀ xs : List Line, (∀ x ∈ xs, x ∈ rest) → ∀ x ∈ xs, x.kind ≠ .blank ∧ x.kind ≠ .comment :=
+        fun xs hs x hx => hcode x (by simp [hs x hx])
+      have htr' : ∀ xs : List Line, (∀ x ∈ xs, x ∈ rest) → ∀ x ∈ xs, isContL x = true → x.trailing = false :=
+        fun xs hs x hx => htr x (by simp [hs x hx])
+      have IH : ∀ xs : List Line, (∀ x ∈ xs, x ∈ rest) → xs.length ≤ rest.length → _ :=
+        fun xs hs hx => ih xs (hcode' xs hs) (htr' xs hs) (by omega)
+      have hb := collectBlock_len1 l.indent rest
+      have hr := collectBlock_len2 l.indent rest
+      have Irest := IH rest (fun _ h => h) (Nat.le_refl _)
+      have Ib := IH _ (fun _ h => mem_collectBlock1 (base := l.indent) h) hb
+      have Ir := IH _ (fun _ h => mem_collectBlock2 (base := l.indent) h) hr
+      have epy := collectBlock_eq_pyBlock l.indent rest (fun x hx => (hcode x (by simp [hx])).1)
+      have HN : C (nested (fuel + 1) (l :: rest)) = true →
+          nested (fuel + 1) (l :: rest) = pyParse (fuel + 1) (l :: rest) := by
+        rcases hk : l.kind with _ | _ | h | _
+        · exact absurd hk hl.1
+        · exact absurd hk hl.2
+        · cases h <;> simp only [nested, pyParse, hk, ← epy, hdrop, reduceCtorEq, if_false, if_true,
+            Bool.false_eq_true, false_imp_iff, List.cons_append] <;> intro hC <;> obtain ⟨h1, h2⟩ := hnode _ _ _ _ hC
+          · rw [Ib.1 h1, Ir.2 _ _ h2]
+          · rw [Ib.1 h1, Ir.1 h2]
+          · rw [Ib.1 h1, Ir.1 h2]
+          · rw [Ib.1 h1, Ir.2 _ _ h2]
+          · rw [Ib.1 h1, Ir.1 h2]
+        · simp only [nested, pyParse, hk]
+          intro hC
+          rw [Irest.1 (hleaf _ _ hC)]
+      refine ⟨HN, ?_⟩
+      intro base isIf
+      have stop : C ([] ++ nested (fuel + 1) (l :: rest)) = true →
+          [] ++ nested (fuel + 1) (l :: rest) = pyParse (fuel + 1) (l :: rest) := by simpa using HN
+      have fi1 := (fuel_indep (fuel + 1) fuel (nested.chain fuel base isIf (collectBlock l.indent rest).2).2
+        (by have := chain_length fuel base isIf (collectBlock l.indent rest).2; omega)
+        (by have := chain_length fuel base isIf (collectBlock l.indent rest).2; omega)).1
+      have fi2 := (fuel_indep (fuel + 1) fuel (collectBlock l.indent rest).2 (by omega) (by omega)).1
+      simp only [nested.chain, hl.1, if_false]
+      split
+      · exact stop
+      · split
+        · rename_i heq
+          split
+          · simp only [List.cons_append, pyParse, heq, ← epy, reduceCtorEq, if_false, fi1]
+            intro hC
+            obtain ⟨h1, h2⟩ := hnode _ _ _ _ hC
+            rw [Ib.1 h1, Ir.2 _ _ h2]
+          · exact stop
+        · rename_i heq
+          split
+          · simp only [List.cons_append, List.nil_append, pyParse, heq, ← epy, reduceCtorEq, if_false, fi2]
+            intro hC
+            obtain ⟨h1, h2⟩ := hnode _ _ _ _ hC
+            rw [Ib.1 h1, Ir.1 h2]
+          · exact stop
+        · rename_i heq
+          split
+          · simp only [List.cons_append, pyParse, heq, ← epy, reduceCtorEq, if_false, fi1]
+            intro hC
+            obtain ⟨h1, h2⟩ := hnode _ _ _ _ hC
+            rw [Ib.1 h1, Ir.2 _ _ h2]
+          · exact stop
+        · exact stop
+
+/-! ### comment-only lines on well laid out scripts -/
+
+def nextCodeL : List Line → Option Line
+  | [] => none
+  | l :: rest => if l.kind = .blank ∨ l.kind = .comment then nextCodeL rest else some l
+
+def layoutOKL : List Line → Bool
+  | [] => true
+  | l :: rest =>
+    (if l.kind = .comment then
+       (match nextCodeL rest with
+        | some n => l.indent = n.indent && !isContL n
+        | none => false)
+     else true) &&
+    (if isContL l then !l.trailing else true) && layoutOKL rest
+
+theorem layoutOKL_tail {l : Line} {rest : List Line} (h : layoutOKL (l :: rest) = true) : layoutOKL rest = true := by
+  simp only [layoutOKL, Bool.and_eq_true] at h; exact h.2
+
+theorem layoutOKL_comment {l : Line} {rest : List Line} (h : layoutOKL (l :: rest) = true) (hk : l.kind = .comment) :
+    ∃ n, nextCodeL rest = some n ∧ l.indent = n.indent ∧ isContL n = false := by
+  simp only [layoutOKL, Bool.and_eq_true, hk, if_true] at h
+  cases hn : nextCodeL rest with
+  | none => simp [hn] at h
+  | some n => exact ⟨n, rfl, by simpa [hn] using h.1.1⟩
+
+theorem layoutOKL_cons {l : Line} {rest : List Line}
+    (h2 : layoutOKL (l :: rest) = true) (rest' : List Line)
+    (h3 : l.kind = .comment → nextCodeL rest' = nextCodeL rest) (h4 : layoutOKL rest' = true) :
+    layoutOKL (l :: rest') = true := by
+  simp only [layoutOKL, Bool.and_eq_true] at h2 ⊢
+  refine ⟨⟨?_, h2.1.2⟩, h4⟩
+  split
+  · rename_i hk
+    rw [h3 hk]
+    simpa [hk] using h2.1.1
+  · rfl
+
+theorem pyLines_cons_skip {l : Line} (rest : List Line) (h : l.kind = .blank ∨ l.kind = .comment) :
+    pyLines (l :: rest) = pyLines rest := by
+  rcases h with h | h <;> simp [pyLines, h]
+
+theorem pyLines_cons_code {l : Line} (rest : List Line) (h1 : l.kind ≠ .blank) (h2 : l.kind ≠ .comment) :
+    pyLines (l :: rest) = l :: pyLines rest := by simp [pyLines, h1, h2]
+
+theorem pyLines_length (ls : List Line) : (pyLines ls).length ≤ ls.length := List.length_filter_le _ _
+
+theorem nextCodeL_head {ls : List Line} {n : Line} (h : nextCodeL ls = some n) :
+    n.kind ≠ .blank ∧ n.kind ≠ .comment ∧ ∃ tl, pyLines ls = n :: tl := by
+  induction ls with
+  | nil => simp [nextCodeL] at h
+  | cons l rest ih =>
+    simp only [nextCodeL] at h
+    split at h
+    · rename_i hk
+      obtain ⟨a, b, tl, e⟩ := ih h
+      exact ⟨a, b, tl, by rw [pyLines_cons_skip _ hk, e]⟩
+    · rename_i hk
+      cases Option.some.inj h
+      have hk' := not_or.mp hk
+      exact ⟨hk'.1, hk'.2, _, pyLines_cons_code _ hk'.1 hk'.2⟩
+
+theorem nextCodeL_collectBlock (base : Nat) {ls : List Line} {n : Line} (hok : layoutOKL ls = true)
+    (h : nextCodeL ls = some n) (hn : base < n.indent) : nextCodeL (collectBlock base ls).1 = some n := by
+  induction ls with
+  | nil => simp [nextCodeL] at h
+  | cons l rest ih =>
+    have ok' := layoutOKL_tail hok
+    simp only [nextCodeL] at h
+    split at h
+    · rename_i hk
+      have ih' := ih ok' h
+      have hin : ¬ (l.kind ≠ .blank ∧ l.indent ≤ base) := by
+        rintro ⟨hb, hle⟩
+        have hc : l.kind = .comment := by rcases hk with hk | hk; exact absurd hk hb; exact hk
+        obtain ⟨n', e1, e2, _⟩ := layoutOKL_comment hok hc
+        rw [h] at e1; cases Option.some.inj e1; omega
+      simp only [collectBlock]
+      split
+      · simp only [nextCodeL, hk, if_true, ih']
+      · split
+        · rename_i hb hle; exact absurd ⟨hb, hle⟩ hin
+        · simp only [nextCodeL, hk, if_true, ih']
+    · rename_i hk
+      have hln := Option.some.inj h
+      subst hln
+      have hk' := not_or.mp hk
+      have : ¬ l.indent ≤ base := by omega
+      simp only [collectBlock, hk'.1, hk'.2, this, if_false, nextCodeL, or_self]
+
+theorem layoutOKL_collectBlock (base : Nat) (ls : List Line) (hok : layoutOKL ls = true) :
+    layoutOKL (collectBlock base ls).1 = true ∧ layoutOKL (collectBlock base ls).2 = true := by
+  induction ls with
+  | nil => simp [collectBlock, layoutOKL]
+  | cons l rest ih =>
+    have ok' := layoutOKL_tail hok
+    obtain ⟨ih1, ih2⟩ := ih ok'
+    simp only [collectBlock]
+    split
+    · rename_i hk
+      exact ⟨layoutOKL_cons hok _ (fun hc => by rw [hk] at hc; cases hc) ih1, ih2⟩
+    · split
+      · exact ⟨rfl, hok⟩
+      · rename_i hb hle
+        refine ⟨layoutOKL_cons hok _ (fun hc => ?_) ih1, ih2⟩
+        obtain ⟨n, e1, e2, _⟩ := layoutOKL_comment hok hc
+        rw [e1]
+        exact nextCodeL_collectBlock base ok' e1 (by omega)
+
+theorem collectBlock_pyLines (base : Nat) (ls : List Line) (hok : layoutOKL ls = true) :
+    collectBlock base (pyLines ls) = (pyLines (collectBlock base ls).1, pyLines (collectBlock base ls).2) := by
+  induction ls with
+  | nil => simp [collectBlock, pyLines]
+  | cons l rest ih =>
+    have ih' := ih (layoutOKL_tail hok)
+    by_cases hk : l.kind = .blank
+    · have hs : l.kind = .blank ∨ l.kind = .comment := Or.inl hk
+      simp only [pyLines_cons_skip _ hs, collectBlock, hk, if_true, ih']
+    · by_cases hc : l.kind = .comment
+      · have hs : l.kind = .blank ∨ l.kind = .comment := Or.inr hc
+        obtain ⟨n, e1, e2, _⟩ := layoutOKL_comment hok hc
+        obtain ⟨n1, n2, tl, e⟩ := nextCodeL_head e1
+        simp only [pyLines_cons_skip _ hs, collectBlock, hk, if_false]
+        split
+        · rename_i hle
+          have : n.indent ≤ base := by omega
+          simp only [pyLines_cons_skip _ hs, e, collectBlock, n1, if_false, this, if_true]
+          rfl
+        · simp only [pyLines_cons_skip _ hs, ih']
+      · have hcd := pyLines_cons_code rest hk hc
+        simp only [hcd, collectBlock, hk, if_false, ih']
+        split
+        · simp only [hcd]; rfl
+        · simp only [pyLines_cons_code _ hk hc]
+
+theorem chain_stop (fuel base : Nat) (isIf : Bool) (n : Line) (tl : List Line)
+    (h1 : n.kind ≠ .blank) (h2 : isContL n = false) :
+    nested.chain (fuel + 1) base isIf (n :: tl) = ([], n :: tl) := by
+  simp only [nested.chain, h1, if_false]
+  split
+  · rfl
+  · split
+    · rename_i heq; simp [isContL, heq] at h2
+    · rename_i heq; simp [isContL, heq] at h2
+    · rename_i heq; simp [isContL, heq] at h2
+    · rfl
+
+theorem layoutOKL_chain (fuel base : Nat) (isIf : Bool) (ls : List Line) (hok : layoutOKL ls = true) :
+    layoutOKL (nested.chain fuel base isIf ls).2 = true := by
+  induction fuel generalizing ls with
+  | zero => simpa [nested.chain] using hok
+  | succ fuel ih =>
+    cases ls with
+    | nil => simp [nested.chain, layoutOKL]
+    | cons l rest =>
+      have ok' := layoutOKL_tail hok
+      have okr := (layoutOKL_collectBlock l.indent rest ok').2
+      simp only [nested.chain]
+      split
+      · exact ih _ ok'
+      · split
+        · exact hok
+        · split
+          · split
+            · exact ih _ okr
+            · exact hok
+          · split
+            · exact okr
+            · exact hok
+          · split
+            · exact ih _ okr
+            · exact hok
+          · exact hok
+
+theorem nested_pyLines (fuel : Nat) : ∀ ls : List Line, layoutOKL ls = true → ls.length < fuel →
+    nested fuel (pyLines ls) = nested fuel ls ∧
+    ∀ base isIf, nested.chain fuel base isIf (pyLines ls) =
+      ((nested.chain fuel base isIf ls).1, pyLines (nested.chain fuel base isIf ls).2) := by
+  induction fuel with
+  | zero => intro ls _ h; omega
+  | succ fuel ih =>
+    intro ls hok hlen
+    cases ls with
+    | nil => simp [nested, nested.chain, pyLines]
+    | cons l rest =>
+      simp only [List.length_cons] at hlen
+      have ok' := layoutOKL_tail hok
+      obtain ⟨okb, okr⟩ := layoutOKL_collectBlock l.indent rest ok'
+      have N : ∀ xs : List Line, layoutOKL xs = true → xs.length ≤ rest.length →
+          nested fuel (pyLines xs) = nested fuel xs :=
+        fun xs ho hx => (ih xs ho (by omega)).1
+      have C : ∀ (xs : List Line) base isIf, layoutOKL xs = true → xs.length ≤ rest.length → _ :=
+        fun xs base isIf ho hx => (ih xs ho (by omega)).2 base isIf
+      have hb := collectBlock_len1 l.indent rest
+      have hr := collectBlock_len2 l.indent rest
+      have e1 := N _ ok' (Nat.le_refl rest.length)
+      have e2 := N _ okb hb
+      have e3 := N _ okr hr
+      have e4 := fun base isIf => C _ base isIf okr hr
+      have e5 := fun base isIf => N _ (layoutOKL_chain fuel base isIf _ okr)
+        (Nat.le_trans (chain_length fuel base isIf _) hr)
+      have e6 := fun base isIf => C _ base isIf ok' (Nat.le_refl rest.length)
+      have hnl := pyLines_length rest
+      by_cases hk : l.kind = .blank
+      · have hs : l.kind = .blank ∨ l.kind = .comment := Or.inl hk
+        have f := fuel_indep (fuel + 1) fuel (pyLines rest) (by omega) (by omega)
+        constructor
+        · rw [pyLines_cons_skip _ hs, f.1, e1]
+          simp only [nested, hk]
+        · intro base isIf
+          rw [pyLines_cons_skip _ hs, f.2, e6]
+          simp only [nested.chain, hk, if_true]
+      · by_cases hc : l.kind = .comment
+        · have hs : l.kind = .blank ∨ l.kind = .comment := Or.inr hc
+          have f := fuel_indep (fuel + 1) fuel (pyLines rest) (by omega) (by omega)
+          constructor
+          · rw [pyLines_cons_skip _ hs, f.1, e1]
+            simp only [nested, hc]
+          · intro base isIf
+            obtain ⟨n, n1, n2, n3⟩ := layoutOKL_comment hok hc
+            obtain ⟨m1, m2, tl, e⟩ := nextCodeL_head n1
+            rw [chain_stop fuel base isIf l rest hk (by simp [isContL, hc]), pyLines_cons_skip _ hs, e,
+              chain_stop fuel base isIf n tl m1 n3]
+        · have hcd := pyLines_cons_code rest hk hc
+          constructor
+          · simp only [hcd, nested, collectBlock_pyLines _ _ ok', e1, e2, e3, e4, e5]
+          · intro base isIf
+            simp only [hcd, nested.chain, collectBlock_pyLines _ _ ok', e2, e4, hk, if_false]
+            split
+            · simp only [hcd]
+            · split
+              · split
+                · rfl
+                · simp only [hcd]
+              · split
+                · rfl
+                · simp only [hcd]
+              · split
+                · rfl
+                · simp only [hcd]
+              · simp only [hcd]
+
 end Reduino.Lemmas.C07
